@@ -167,7 +167,7 @@ def recorder_class():
         name = None
 
         def __init__(self, r, cs, log, name, function=None, haltCycle=None, convPool=None, failAt=None,
-                     counter=None, extra=None):
+                     counter=None, extra=None, haltValue=True, idleValue=False, restartAt=None):
             self.name = name
             self.function = function
             Interface.__init__(self, r, cs)
@@ -178,6 +178,9 @@ def recorder_class():
             self.failAt = failAt          # global hook-call index at which this interface raises
             self.counter = counter        # shared [n] hook-call counter (all recorders of the stack)
             self.extra = extra            # callable(r) -> tuple recorded with every event
+            self.haltValue = haltValue    # the object interactBOC returns in its halt cycle (any type)
+            self.idleValue = idleValue    # the object interactBOC returns in every other cycle (any type)
+            self.restartAt = restartAt    # (cycle, node) this interface positions the reactor at while handling BOL
 
         def _rec(self, event, *args):
             if self.counter is not None:
@@ -192,10 +195,15 @@ def recorder_class():
         def interactBOL(self):
             Interface.interactBOL(self)
             self._rec("BOL")
+            if self.restartAt is not None:
+                # what MainInterface.interactBOL does for loadStyle=fromDB: the restart point is established here
+                self.r.p.cycle, self.r.p.timeNode = self.restartAt
 
         def interactBOC(self, cycle=None):
             self._rec("BOC", cycle)
-            return self.haltCycle is not None and cycle == self.haltCycle
+            if self.haltCycle is not None and cycle == self.haltCycle:
+                return self.haltValue
+            return self.idleValue
 
         def interactEveryNode(self, cycle, node):
             self._rec("EveryNode", cycle, node)
@@ -242,7 +250,7 @@ def db_recorder_class():
 
 class IfaceSpec:
     def __init__(self, name, enabled=True, bolForce=False, reverse=False, deferred=False, haltCycle=None,
-                 coupled=False, isDb=False):
+                 coupled=False, isDb=False, haltRequested=True, restartAt=None):
         self.name = name
         self.enabled = enabled
         self.bolForce = bolForce
@@ -251,6 +259,8 @@ class IfaceSpec:
         self.haltCycle = haltCycle
         self.coupled = coupled
         self.isDb = isDb
+        self.haltRequested = haltRequested   # False: what the hook returns in its halt cycle does not ask for a halt
+        self.restartAt = restartAt           # (cycle, node) the interface moves the reactor to while handling BOL
 
 
 def _active(specs, event, cycle, deferredCycle):
@@ -272,7 +282,8 @@ def reference_events(ms, start, specs, deferredCycle=0, coupling=False, maxIters
                      haltStopsEvent=False):
     """Generator of the events (event, iface, args, cycle, node) of a standard run, in order.
 
-    ms: burn steps per cycle; start: (cycle, node); answers: convergence answers in call order (consumed lazily, so
+    ms: burn steps per cycle; start: (cycle, node) the reactor is at when the run begins (an interface with
+    ``restartAt`` moves it during beginning-of-life); answers: convergence answers in call order (consumed lazily, so
     a consumer that stops early never looks at later answers).
     haltStopsEvent=True models the observed behaviour that a halt request suppresses the rest of that event
     (only used behind the KNOWN_DEFECT flag)."""
@@ -280,6 +291,10 @@ def reference_events(ms, start, specs, deferredCycle=0, coupling=False, maxIters
     nxt = 0
     for s in _active(specs, "BOL", sc, deferredCycle):
         yield ("BOL", s.name, (), sc, sn)
+        if s.restartAt is not None:
+            # the restart point established during beginning-of-life is where the run starts (and what every later
+            # hook sees)
+            sc, sn = s.restartAt
     cyc, node = sc, sn
     for c in range(sc, len(ms)):
         first = sn if c == sc else 0
@@ -289,7 +304,7 @@ def reference_events(ms, start, specs, deferredCycle=0, coupling=False, maxIters
             if halt and haltStopsEvent:
                 continue
             yield ("BOC", s.name, (c,), c, first)
-            if s.haltCycle is not None and s.haltCycle == c:
+            if s.haltCycle is not None and s.haltCycle == c and s.haltRequested:
                 halt = True
         if halt:
             break
